@@ -71,7 +71,8 @@ def run(ctx: Ctx) -> None:
     wa = repo.func("utils", "wrap_app")
     src = norm(wa)
     rets = [n for n in walk_local(wa) if isinstance(n, ast.Return)]
-    ok = "mode = 'asgi' if is_asgi(app) else 'wsgi'" in src and len(rets) == 2
+    modes = {norm(n.value): guard_atoms(n) for n in walk_local(wa) if isinstance(n, ast.Assign) and dotted(n.targets[0]) == "mode"}
+    ok = modes == {"'asgi'": {("mode is None", True), ("is_asgi(app)", True)}, "'wsgi'": {("mode is None", True), ("is_asgi(app)", False)}} and len(rets) == 2
     if ok:
         a_ = [r for r in rets if "ASGIWrapper" in norm(r.value)]
         w_ = [r for r in rets if "WSGIWrapper" in norm(r.value)]
@@ -87,8 +88,13 @@ def run(ctx: Ctx) -> None:
     bind = g.where(has_stmt(lambda n: isinstance(n, ast.Call) and call_name(n) == "self.app"))
     ctx.need(len(bind) >= 1, f"{w}: application call node not found")
     bind = bind[-1:]
-    _cl = has_call("response_body.close")
-    closep = lambda n: _cl(n) or (n.kind == "test" and norm(n.ast.test) == "hasattr(response_body, 'close')")
+    appcall = [c for c in calls(ra) if call_name(c) == "self.app"]
+    par = getattr(appcall[-1], "_parent", None) if appcall else None
+    direct = isinstance(par, ast.Assign) and len(par.targets) == 1 and isinstance(par.targets[0], ast.Name) and par.value is appcall[-1]
+    rb = par.targets[0].id if direct else "response_body"
+    ctx.check("C17.R3", w, "the object returned by the application is the one iterated and closed (bound directly, not wrapped)", direct and [norm(a) for a in appcall[-1].args] == ["environ", "start_response"], "the application's return value is wrapped (iter(...), list(...), a generator) before it is kept: close() would be looked up on the wrapper - a response object whose __iter__ returns a separate iterator never gets its close() called", appcall[-1] if appcall else ra)
+    _cl = has_call(f"{rb}.close")
+    closep = lambda n: _cl(n) or (n.kind == "test" and norm(n.ast.test) == f"hasattr({rb}, 'close')")
     # start after the binding statement completed normally
     nxt = [m for m, lab in g.succ[bind[0]] if lab == "next"]
     wit = None
@@ -107,13 +113,13 @@ def run(ctx: Ctx) -> None:
                     first_unprotected = [s, m]
     ctx.check("C17.R3", w, "iterable bound -> close() on every exit", wit is None and first_unprotected is None,
               "an exit of run_app skips response_body.close(): " + explain(g, wit or first_unprotected), ra)
-    cl = find_calls(ra, "response_body.close")
-    ok = len(cl) == 1 and ("hasattr(response_body, 'close')", True) in guard_atoms(cl[0]) and any(isinstance(a_, ast.Try) and any(cl[0] is x for s_ in a_.finalbody for x in ast.walk(s_)) for a_ in ancestors(cl[0]))
+    cl = find_calls(ra, f"{rb}.close")
+    ok = len(cl) == 1 and (f"hasattr({rb}, 'close')", True) in guard_atoms(cl[0]) and any(isinstance(a_, ast.Try) and any(cl[0] is x for s_ in a_.finalbody for x in ast.walk(s_)) for a_ in ancestors(cl[0]))
     ctx.check("C17.R3", w, "single close() in a finally, guarded by hasattr", ok, "close() must be called exactly once and only if the iterable has it", cl[0] if cl else ra)
 
     # R4
     tests = [n for n in g.nodes if n.kind == "test" and "response_started" in norm(n.ast.test)]
-    iters = [n.id for n in g.nodes if n.kind == "iter" and norm(n.ast.iter) == "response_body"]
+    iters = [n.id for n in g.nodes if n.kind == "iter" and norm(n.ast.iter) == rb]
     ok = bool(tests) and bool(iters) and all(g.dominates(lambda n: n.id in iters, t_.id) for t_ in tests)
     ctx.check("C17.R4", w, "response_started tested only after iteration began or ended", ok, "start_response is checked right after calling the application: generator (lazy) applications get RuntimeError", tests[0].ast if tests else ra)
     starts = g.where(has_stmt(lambda n: isinstance(n, ast.Call) and call_name(n) == "send" and "http.response.start" in norm(n)))
@@ -210,15 +216,34 @@ def run(ctx: Ctx) -> None:
         ctx.check("C17.R7", wb, f"environ[{k}]", env.get(k) == v, f"environ[{k}] is {env.get(k)}, expected {v}", be)
     sn = [n for n in walk_local(be) if isinstance(n, ast.Assign) and dotted(n.targets[0]) == "script_name"]
     pth = [n for n in walk_local(be) if isinstance(n, ast.Assign) and dotted(n.targets[0]) == "path"]
-    ok = len(sn) == 1 and norm(sn[0].value) == "scope.get('root_path', '')" and sorted(norm(p.value) for p in pth) == sorted(["scope['path']", "path[len(script_name):]", "path if path != '' else '/'"])
+    ok = len(sn) == 1 and norm(sn[0].value) == "scope.get('root_path', '')" and sorted(norm(p.value) for p in pth if norm(p.value) != "path") == sorted(["scope['path']", "path[len(script_name):]", "'/'"])
+    slash = [p for p in pth if norm(p.value) == "'/'"]
+    ok = ok and len(slash) == 1 and guard_atoms(slash[0]) == {("path.startswith(script_name)", True), ("path == ''", True)} and slash[0].lineno > [p for p in pth if norm(p.value) == "path[len(script_name):]"][0].lineno
     strip = [p for p in pth if norm(p.value) == "path[len(script_name):]"]
     ok = ok and len(strip) == 1 and ("path.startswith(script_name)", True) in guard_atoms(strip[0])
     rs = [n for n in walk_local(be) if isinstance(n, ast.Raise) and "InvalidPathError" in norm(n)]
     ok = ok and len(rs) == 1 and ("path.startswith(script_name)", False) in guard_atoms(rs[0])
     ctx.check("C17.R7", wb, "PATH_INFO = path minus root_path, '/' when empty; outside root_path -> InvalidPathError", ok, f"path handling: {[norm(p.value) for p in pth]}", be)
     # header mapping
-    cn = {norm(n.value): sorted(guard_atoms(n)) for n in walk_local(be) if isinstance(n, ast.Assign) and dotted(n.targets[0]) == "corrected_name"}
-    ok = set(cn) == {"'CONTENT_LENGTH'", "'CONTENT_TYPE'", "'HTTP_%s' % name.upper().replace('-', '_')"} and ("name == 'content-length'", True) in cn["'CONTENT_LENGTH'"] and ("name == 'content-type'", True) in cn["'CONTENT_TYPE'"]
+    from ..astq import expand_locals
+    from ..pred import Unknown as _Unk, eval_expr as _ev
+
+    cn = {}
+    ok = True
+    for n in walk_local(be):
+        if isinstance(n, ast.Assign) and dotted(n.targets[0]) == "corrected_name":
+            ga = guard_atoms(n)
+            sample = "content-length" if ("name == 'content-length'", True) in ga else "content-type" if ("name == 'content-type'", True) in ga else "x-foo-bar"
+            try:
+                val = _ev(expand_locals(n.value, be, keep=("name",)), {"name": sample})
+            except Exception as error:
+                val = f"not evaluable: {error}"
+            cn[sample] = val
+            if sample == "x-foo-bar" and not ({("name == 'content-length'", False), ("name == 'content-type'", False)} <= ga):
+                ok = False
+    ok = ok and cn == {"content-length": "CONTENT_LENGTH", "content-type": "CONTENT_TYPE", "x-foo-bar": "HTTP_X_FOO_BAR"}
+    nm = [n for n in walk_local(be) if isinstance(n, ast.Assign) and dotted(n.targets[0]) == "name"]
+    ok = ok and len(nm) == 1 and "decode('latin1')" in norm(nm[0].value)
     ctx.check("C17.R7", wb, "content-length/content-type/HTTP_* naming", ok, f"header naming: {cn}", be)
     join = [n for n in walk_local(be) if isinstance(n, ast.Assign) and dotted(n.targets[0]) == "value" and "environ[corrected_name]" in norm(n.value)]
     ok = len(join) == 1 and norm(join[0].value) == "environ[corrected_name] + ',' + value" and ("corrected_name in environ", True) in guard_atoms(join[0])
@@ -232,13 +257,25 @@ def run(ctx: Ctx) -> None:
     # R8
     sr = repo.find(M, "WSGIWrapper.run_app.start_response")
     ctx.need(sr is not None, "start_response closure not found")
-    src = norm(sr)
-    ok = "raw, _ = status.split(' ', 1)" in src and "status_code = int(raw)" in src and "response_started = True" in src
-    ctx.check("C17.R8", w + ".start_response", "status code = int(first token of the status line)", ok, "status parsing changed", sr)
-    ok = "(name.lower().encode('latin-1'), value.encode('latin-1')) for name, value in response_headers" in src
-    ctx.check("C17.R8", w + ".start_response", "headers: (name.lower().encode('latin-1'), value.encode('latin-1')) in order", ok, "header conversion changed", sr)
+    from ..pred import eval_function as _evf
+
+    pnames = [a.arg for a in sr.args.args]
+    ctx.check("C17.R8", w + ".start_response", "start_response(status, response_headers, exc_info=None)", len(pnames) == 3, f"parameters {pnames}", sr)
+    hdr_in = [("Content-Type", "text/plain"), ("X-A", "\xfc"), ("x-a", "2")]
+    hdr_out = [(b"content-type", b"text/plain"), (b"x-a", b"\xfc"), (b"x-a", b"2")]
+    for status, code, started, exc in (("200 OK", 200, False, None), ("404 Not Found", 404, False, None), ("503 Service Unavailable", 503, True, ("type", "value", "tb")), ("500 Oops", 500, False, ("type", "value", "tb"))):
+        envp = dict(zip(pnames, [status, hdr_in, exc])) if len(pnames) == 3 else {}
+        try:
+            out = _evf(sr, {**envp, "response_started": started, "status_code": None, "headers": None}, want_env=True)
+            got = (out.get("status_code"), [tuple(h) for h in out.get("headers") or []], out.get("response_started"))
+        except Exception as error:
+            got = f"raises / not evaluable: {error}"
+        ctx.check("C17.R8", w + ".start_response", f"start_response({status!r}, headers, exc_info={'set' if exc else None}) with response_started={started}", got == (code, hdr_out, True),
+                  f"records {got}, expected status {code}, headers lower-cased latin-1 in order, response_started=True - and no exception: PEP 3333 lets an application call start_response again with exc_info before any output to replace the response", sr)
     bs = [c for c in calls(ra) if call_name(c) == "send" and "http.response.body" in norm(c)]
-    ok = len(bs) == 1 and norm(arg(bs[0], 0)) == "{'type': 'http.response.body', 'body': output, 'more_body': True}"
+    loops_ = [n for n in walk_local(ra) if isinstance(n, ast.For) and norm(n.iter) == rb and isinstance(n.target, ast.Name)]
+    ov = loops_[0].target.id if loops_ else "output"
+    ok = len(loops_) == 1 and len(bs) == 1 and norm(arg(bs[0], 0)) == "{'type': 'http.response.body', 'body': %s, 'more_body': True}" % ov and any(a is loops_[0] for a in ancestors(bs[0]))
     ss_ = [c for c in calls(ra) if call_name(c) == "send" and "http.response.start" in norm(c)]
     ok = ok and all(norm(arg(c, 0)) == "{'type': 'http.response.start', 'status': status_code, 'headers': headers}" for c in ss_) and bool(ss_)
     ctx.check("C17.R8", w, "chunks sent unmodified with more_body=True; head carries the parsed status and headers", ok, "response mapping changed", ra)
